@@ -257,6 +257,9 @@ class HashRule(ABC):
         self.symbol = symbol
         self.first_level = first_level
         self.rule_hash = None  # this is typically computed and stored later
+        # Rules for other symbols that resolve to the same entity (they share this rule's
+        # key and hash, but each symbol can be re-bound on its own)
+        self.alternates = []  # type: List[HashRule]
 
     def describe(self) -> str:
         """Return a textual description of the component of the hash"""
@@ -631,6 +634,11 @@ class MementoFunctionHashRule(HashRule):
     ):
         # Make sure self is not already accounted for:
         if self in result:
+            # Same entity referenced under another symbol: keep this rule with the one already
+            # collected so that re-binding either symbol is noticed (see did_change)
+            for rule in result:
+                if rule == self and rule is not self:
+                    rule.alternates.append(self)
             return
 
         # Always add self, even if this function is not in package scope. Memento Functions
@@ -848,6 +856,11 @@ class NonMementoFunctionHashRule(HashRule):
     ):
         # Make sure self is not already accounted for:
         if self in result:
+            # Same entity referenced under another symbol: keep this rule with the one already
+            # collected so that re-binding either symbol is noticed (see did_change)
+            for rule in result:
+                if rule == self and rule is not self:
+                    rule.alternates.append(self)
             return
 
         # Only add this function and descend if it is within the package scope.
